@@ -384,7 +384,13 @@ def _wake(run, nid, tyme):
         cur = list(sched.doers)
         for ix in step["present"]:
             if cur:
-                present.append(cur[ix % len(cur)])
+                d = cur[ix % len(cur)]
+                if hasattr(d, "__func__") and (ix // 8 + len(present)) % 2 == 0:
+                    # a bound-method doer fetched again is a new object that compares equal to the one already scheduled
+                    import types
+                    d = types.MethodType(d.__func__, d.__self__)
+                    run.fault("extend_equal_but_not_identical_method")
+                present.append(d)
         objs = [run.objs[i] for i in fresh]
         for i in fresh:
             _set_parent(run, i, sched)
